@@ -14,7 +14,7 @@ TB_COMMON = [KERNEL, 'axioms: propext, Classical.choice, Quot.sound only (audite
 # theorem registry: property -> [(module, [theorem names])]
 THEOREMS = {
     'C11': [('ChessVerif.Props.C11', ['Chess.Props.C11_slider', 'Chess.Props.C11_leapers', 'Chess.Props.C11_lines', 'Chess.Props.C11_pawn'])],
-    'C01': [('ChessVerif.Props.C01', ['Chess.Props.C01_movegen_exact', 'Chess.Props.C01_exact', 'Chess.Props.C01_reachable', 'Chess.Props.C01_exact_noep', 'Chess.Props.C01_unpinned_legal', 'Chess.Props.C01_no_duplicates', 'Chess.Props.C01_move_shape', 'Chess.Props.C01_king_moves_exact', 'Chess.Props.C01_castling_exact', 'Chess.Props.C01_castling_emitted',
+    'C01': [('ChessVerif.Props.C01', ['Chess.Props.C01_movegen_exact', 'Chess.Props.C01_exact', 'Chess.Props.C01_perft', 'Chess.Props.C01_reachable', 'Chess.Props.C01_exact_noep', 'Chess.Props.C01_unpinned_legal', 'Chess.Props.C01_no_duplicates', 'Chess.Props.C01_move_shape', 'Chess.Props.C01_king_moves_exact', 'Chess.Props.C01_castling_exact', 'Chess.Props.C01_castling_emitted',
                                      'Chess.Props.C01_forbidden_squares', 'Chess.Props.C01_forbidden_nocheck', 'Chess.Props.C01_in_check_test',
                                      'Chess.Props.C01_leaper_geometry_partial', 'Chess.Props.C01_slider_geometry_partial', 'Chess.Props.C01_castling_paths_partial',
                                      'Chess.Props.C01_king_moves_partial', 'Chess.Props.C01_pins_partial'])],
@@ -34,13 +34,15 @@ THEOREMS = {
     'C10': [('ChessVerif.Props.C10', ['Chess.Props.C10_history', 'Chess.Props.C10_history_cap', 'Chess.Props.C10_iteration_index', 'Chess.Props.C10_pins',
                                      'Chess.Props.C10_capacities', 'Chess.Props.C10_piece_lists'])],
     'C12': [('ChessVerif.Props.C12', ['Chess.Props.C12_kpk', 'Chess.Props.C12_mirror', 'Chess.Props.C12_certificate', 'Chess.Props.C12_index', 'Chess.Props.C12_normalize'])],
-    'C13': [('ChessVerif.Props.C13', ['Chess.Props.C13_geometry', 'Chess.Props.C13_normSq_mirror', 'Chess.Props.C13_combine_neg', 'Chess.Props.C13_phase_symm'])],
-    'C14': [('ChessVerif.Props.C14', ['Chess.Props.C14_cache_transparent', 'Chess.Props.C14_bounded', 'Chess.Props.C14_constants', 'Chess.Props.C14_cap_partial'])],
-    'C15': [('ChessVerif.Props.C15', ['Chess.Props.C15_capture_quiet_full', 'Chess.Props.C15_gives_check_full', 'Chess.Props.C15_gives_check_noncastle', 'Chess.Props.C15_gives_check', 'Chess.Props.C15_gives_check_ordinary', 'Chess.Props.C15_quiet', 'Chess.Props.C15_castling', 'Chess.Props.C15_capture_rules'])],
-    'C17': [('ChessVerif.Props.C17', ['Chess.Props.C17_roundtrip_wf', 'Chess.Props.C17_roundtrip', 'Chess.Props.C17_matcher_piece', 'Chess.Props.C17_matcher_pawn', 'Chess.Props.C17_castling'])],
+    'C13': [('ChessVerif.Props.C13', ['Chess.Props.C13_geometry', 'Chess.Props.C13_normSq_mirror', 'Chess.Props.C13_combine_neg', 'Chess.Props.C13_phase_symm']),
+            ('ChessVerif.Props.C13Mirror', ['Chess.Props.C13_guard_phase_wf', 'Chess.Props.C13_counts_mirror', 'Chess.Props.C13_phase_mirror', 'Chess.Props.C13_material_mirror', 'Chess.Props.C13_king_mirror', 'Chess.Props.C13_king_distance_mirror', 'Chess.Props.C13_bitboards_mirror'])],
+    'C14': [('ChessVerif.Props.C14', ['Chess.Props.C14_cache_transparent', 'Chess.Props.C14_bounded', 'Chess.Props.C14_reachable', 'Chess.Props.C14_constants', 'Chess.Props.C14_cap_partial'])],
+    'C15': [('ChessVerif.Props.C15', ['Chess.Props.C15_capture_quiet_full', 'Chess.Props.C15_gives_check_full', 'Chess.Props.C15_reachable', 'Chess.Props.C15_gives_check_noncastle', 'Chess.Props.C15_gives_check', 'Chess.Props.C15_gives_check_ordinary', 'Chess.Props.C15_quiet', 'Chess.Props.C15_castling', 'Chess.Props.C15_capture_rules'])],
+    'C17': [('ChessVerif.Props.C17', ['Chess.Props.C17_legal_rules', 'Chess.Props.C17_unambiguous', 'Chess.Props.C17_reachable', 'Chess.Props.C17_roundtrip_wf', 'Chess.Props.C17_roundtrip', 'Chess.Props.C17_matcher_piece', 'Chess.Props.C17_matcher_pawn', 'Chess.Props.C17_castling'])],
     'C18': [('ChessVerif.Props.C18', ['Chess.Props.C18_tables', 'Chess.Props.C18_anchors', 'Chess.Props.C18_pieces', 'Chess.Props.C18_key_noep', 'Chess.Props.C18_key'])],
     'C16': [('ChessVerif.Props.C16', ['Chess.Props.C16_encoding', 'Chess.Props.C16_encoding_move', 'Chess.Props.C16_castle_code', 'Chess.Props.C16_moveinfo',
-                                     'Chess.Props.C16_uci_text', 'Chess.Props.C16_uci_plain', 'Chess.Props.C16_uci_castle'])],
+                                     'Chess.Props.C16_uci_text', 'Chess.Props.C16_uci_plain', 'Chess.Props.C16_uci_castle']),
+            ('ChessVerif.Props.C16Full', ['Chess.Props.C16_fen_roundtrip', 'Chess.Props.C16_fen_roundtrip_key', 'Chess.Props.C16_uci_roundtrip_wf', 'Chess.Props.C16_uci_legal_rules', 'Chess.Props.C16_reachable'])],
     'C19': [('ChessVerif.Props.C19', ['Chess.Props.C19_load', 'Chess.Props.C19_load_count', 'Chess.Props.C19_best', 'Chess.Props.C19_random',
                                      'Chess.Props.C19_random_never_zero', 'Chess.Props.C19_decode'])],
     'C20': [('ChessVerif.Props.C20', ['Chess.Props.C20_bounds', 'Chess.Props.C20_monotone'])],
@@ -665,14 +667,21 @@ def structured_endgames(rng, n):
             if not 0 <= f2 < 8:
                 continue
             r1 = rng.randrange(2, 6); r2 = rng.randrange(1, r1)
+            # a third of the time the two leading pawns stand abreast (which of them counts as "the most advanced" is then a
+            # tie-break that must not depend on the colour)
+            abreast = rng.random() < 0.34
+            if abreast:
+                r2 = r1
             p1, p2 = r1 * 8 + f1, r2 * 8 + f2
             pl[p1] = 'P'; pl[p2] = 'P'
-            block1, block2 = (r1 + 1) * 8 + f1, r1 * 8 + f2
+            if abreast and rng.random() < 0.4 and r1 >= 3:
+                pl[(r1 - rng.randrange(1, r1 - 1)) * 8 + rng.choice([f1, f2])] = 'P'
+            block1, block2 = (r1 + 1) * 8 + f1, r1 * 8 + f2          # abreast: block2 is the neighbouring pawn's own square
             same = [s for s in range(64) if (s // 8 + s % 8) % 2 == (r1 + f1) % 2 and s not in pl and s not in (block1, block2)]
             other = [s for s in range(64) if (s // 8 + s % 8) % 2 != (r1 + f1) % 2 and s not in pl]
             sb = rng.choice(same if rng.random() < 0.8 else other)
             pl[sb] = 'B'
-            kb, tb = (block1, block2) if rng.random() < 0.5 else (block2, block1)
+            kb, tb = (block1, block2) if (abreast or rng.random() < 0.5) else (block2, block1)
             if rng.random() < 0.8:
                 pl[kb] = 'k'
                 diag = [s for s in range(64) if s not in pl and s != tb and abs(s // 8 - tb // 8) == abs(s % 8 - tb % 8)]
@@ -1512,6 +1521,12 @@ def check_C06(ctx):
         ctx.count('go_right_after_bestmove_parked' if r['parked'] else 'go_right_after_bestmove_NOT_parked')
         if not r['parked']:
             ctx.notes.append('the after-bestmove schedule point did not fire in a go-again session (the engine no longer writes `bestmove` through stdio?): that schedule was not exercised')
+        if r['first'] == 0:
+            # the first `go depth 1` itself was not answered within the wait (a depth-1 search has no time limit of its own; on a loaded
+            # machine the sanitizer build can need longer on the capture-rich positions): nothing was learnt about the second `go`
+            ctx.count('go_right_after_bestmove_inconclusive_first_search_too_slow')
+            ctx.notes.append(f'go-again session on {fen}: the first `go depth 1` was not answered within 8 s; session inconclusive')
+            continue
         if len(r['bestmoves']) != 2:
             V.report_violation(ctx, f"a `go` sent the moment the previous bestmove became visible was answered by {len(r['bestmoves']) - r['first']} bestmove lines (expected 1)",
                                f'# run: VERIF_PARK=8:1:500 cppdrv uci   (the thread that writes `bestmove` is parked right after the write)\nposition fen {fen}\ngo depth 1\n'
@@ -1684,6 +1699,11 @@ def check_C09(ctx):
         ops.append(rng.choice(['go movetime 30', 'go wtime 200 btime 200', 'go wtime 50 btime 50 winc 10 binc 10 movestogo 3', 'go nodes 2000']))
         # a deeper search first, then a restricted one: the table now holds moves outside the subset
         ops += [f'go depth {rng.randrange(3, 5)}', f'smgo {rng.randrange(1 << 30)} {rng.randrange(2, 4)}']
+        # ... and restricted searches that complete NO iteration (node / time budget of one, stop at the first visits) right after
+        # an unrestricted one: whatever the fallback answer is taken from, it is one of the searchmoves
+        ops += [f'go depth 2', f'smgo {rng.randrange(1 << 30)} 6 nodes 1', f'smgo {rng.randrange(1 << 30)} 6 movetime 1',
+                f'smgo {rng.randrange(1 << 30)} 5 stopvisit 1', f'go depth 3', f'smgo {rng.randrange(1 << 30)} 5 stopvisit {rng.randrange(2, 40)}',
+                f'smgo {rng.randrange(1 << 30)} 6 wtime 1 btime 1']
         texts.append('\n'.join(ops) + '\n')
     runs = go_run(ctx, texts, timeout=900)
     # roots without a legal move (checkmated, stalemated): the iteration loop has nothing to search and must still end by itself
@@ -1693,7 +1713,7 @@ def check_C09(ctx):
     runs += go_run(ctx, [f'pos {fen}\n' + ''.join(f'go depth {d}\n' for d in (1, 2, 4, 41, 1000)) + 'go depth 3 movetime 2000\n' for fen in nomove], timeout=150)
     ctx.count('no_legal_move_roots', len(nomove))
     ctx.cov['rule'] = (f'go depth d for d in {depths} on positions where deep iterations are instant; depth combined with movetime/clock/nodes; go depth d on checkmated and stalemated roots (nothing to search: the loop must still end); searchmoves naming castling and (under-)promotion moves; random searchmoves subsets (also right after a deeper '
-                       'unrestricted search and with poisoned tables); time/clock/node limits must return on their own within the timeout; output checked by the spec (consecutive depths, <= d, '
+                       'unrestricted search, with poisoned tables, and with budgets so small that no iteration completes); time/clock/node limits must return on their own within the timeout; output checked by the spec (consecutive depths, <= d, '
                        'bestmove in subset) and trace by the acceptor')
     judge(ctx, runs, 'search limits', c09_fail)
     ctx.count('deep_depth_runs', sum(1 for r in runs if any(f'depth {d}' in r['go'] for d in (39, 40, 41, 60, 1000, 2147483647))))
